@@ -2921,6 +2921,10 @@ func (s *ImmuStore) ReplicateTx(ctx context.Context, exportedTx []byte, skipInte
 		}
 
 		// value
+		if len(exportedTx) < i+lszSize {
+			return nil, ErrIllegalArguments
+		}
+
 		vLen := int(binary.BigEndian.Uint32(exportedTx[i:]))
 		i += lszSize
 
@@ -2942,6 +2946,10 @@ func (s *ImmuStore) ReplicateTx(ctx context.Context, exportedTx []byte, skipInte
 	// check if there is truncated value information in the transaction
 	if i < len(exportedTx) {
 		// information for truncated value
+		if len(exportedTx) < i+sszSize {
+			return nil, ErrIllegalArguments
+		}
+
 		tLen := int(binary.BigEndian.Uint16(exportedTx[i:]))
 		i += sszSize
 		if len(exportedTx) < i+tLen {
@@ -2954,7 +2962,7 @@ func (s *ImmuStore) ReplicateTx(ctx context.Context, exportedTx []byte, skipInte
 		if len(v) > 0 && v[0] > 1 {
 			return nil, ErrIllegalTruncationArgument
 		}
-		isTruncated = v[0] == 1
+		isTruncated = len(v) > 0 && v[0] == 1
 		i += tLen
 	}
 
